@@ -52,6 +52,10 @@ KINDS = {
     "sign": (1, lambda a: p.Call(mathf("copysign"), (1, a))),
     "if": (3, lambda c, a, b: p.If(p.Comparison(c, "<", 0), a, b)),
     "unknownf": (1, lambda a: p.Call(p.Variable("g"), (a,))),
+    # table functions called with a number of arguments the table has no rule for: unknown, to be refused
+    "log_base": (2, lambda a, b: p.Call(mathf("log"), (a, b))),
+    "sin_two": (2, lambda a, b: p.Call(mathf("sin"), (a, b))),
+    "fabs_two": (2, lambda a, b: p.Call(mathf("fabs"), (a, b))),
     # the same OBJECT in several operand positions (trees are DAGs in practice: s = sin(x); s*s)
     "sq_shared": (1, lambda a: p.Product((a, a))), "prod3_shared": (2, lambda a, b: p.Product((a, b, a))),
     "sum_shared": (1, lambda a: p.Sum((a, a))), "quot_shared": (2, lambda a, b: p.Quotient(p.Sum((a, b)), a)),
@@ -63,7 +67,7 @@ for _f in FUNCS1:
 SMOOTH = (["sum2", "sum3", "prod2", "prod3", "quot", "pow", "pow2", "pow3", "powm1", "powh", "exp2", "cse"] + FUNCS1
           + ["sq_shared", "prod3_shared", "sum_shared", "quot_shared", "pow_shared"])
 NONSMOOTH = {"fabs": "continuous", "copysign": "discontinuous", "sign": "discontinuous", "if": "discontinuous",
-             "unknownf": "never"}
+             "unknownf": "never", "log_base": "never", "sin_two": "never", "fabs_two": "never"}
 LEAVES = ["x", "y", "v0", 2, 3, -1, 0.5]
 
 
@@ -128,6 +132,8 @@ def gen_trees(tier):
         n = KINDS[pk][0]
         for i in range(n):
             for ck in kinds:
+                if pk == "if" and i == 0 and ck in ("log_base", "sin_two", "fabs_two"):
+                    continue      # as a mere condition value such a call is not differentiated at all
                 a = default_args(n, 1)
                 a[i] = mk(ck, default_args(KINDS[ck][0]))
                 out.append(mk(pk, a))
@@ -205,11 +211,31 @@ class MathEnv:
             self.axioms += [self.f("expm1")(t) == self.f("exp")(t) - 1, self.f("exp")(t) > 0]
         return r
 
+    def _unary(self, name):
+        if name == "fabs":
+            return lambda a: abs(_frac(a))
+
+        def fn(a):
+            a = _frac(a)
+            if name == "log":
+                if not (a > 0):
+                    raise ValueError("math domain error")
+            return sym.SymFrac(self.app(name, a.term))
+        return fn
+
     def __getattr__(self, name):
         if name.startswith("_"):
             raise AttributeError(name)
-        if name == "fabs":
-            return lambda a: abs(_frac(a))
+        if name in ("fabs", "sin", "log"):
+            one = self._unary(name)
+
+            def any_arity(*a):
+                if len(a) == 1:
+                    return one(a[0])
+                # a call form math has no such function for: only ever a value inside a condition, any number will do
+                f2 = z3.Function(f"{name}{len(a)}", *([z3.RealSort()] * (len(a) + 1)))
+                return sym.SymFrac(f2(*[_frac(x).term for x in a]))
+            return any_arity
         if name == "copysign":
             def cs(a, b):
                 a, b = _frac(a), _frac(b)
@@ -340,6 +366,9 @@ def dual(d, env, menv, var):
         if cv == 0:
             raise Undefined("switching point of the conditional")
         return D(args[1]) if cv < 0 else D(args[2])
+    if k in ("log_base", "sin_two", "fabs_two"):
+        u = D(args[0])
+        return Dual(env["g"](_frac(u.val)), 0)      # never differentiated (refused); only a value inside conditions
     if k == "unknownf":
         u = D(args[0])
         # only the value is ever needed (inside the condition of a conditional): no derivative rule exists
